@@ -5,9 +5,9 @@ import (
 	"encoding/json"
 	"fmt"
 	"os"
-	"strconv"
 	"reflect"
 	"sort"
+	"strconv"
 	"strings"
 	"testing"
 
@@ -47,6 +47,21 @@ type Case struct {
 	Raw        []byte `json:"raw,omitempty"`
 	CorruptAt  int    `json:"corrupt_at,omitempty"`
 	CorruptXor byte   `json:"corrupt_xor,omitempty"`
+	// AbandonAt k>0 (valid streams): before this stream the handler (one instance per process, shared by all
+	// sessions as in the client) read the first k bytes of a longer frame on a connection that then died
+	AbandonAt int `json:"abandon_at,omitempty"`
+}
+
+// sharedHandler: the client has one package handler for all sessions; so has the harness.
+var sharedHandler = &sgetty.RpcPackageHandler{}
+
+// abandonedFrame is a frame longer than any generated one (its body carries a 400-byte lock key).
+func abandonedFrame(h *sgetty.RpcPackageHandler) []byte {
+	b, err := h.Write(nil, message.RpcMessage{ID: 77, Type: message.GettyRequestTypeRequestSync, Codec: 1, Body: message.BranchRegisterRequest{Xid: "10.0.0.1:8091:1", ResourceId: "r", LockKey: strings.Repeat("k", 400)}})
+	if err != nil {
+		panic(err)
+	}
+	return b
 }
 
 func (m Msg) body() interface{} {
@@ -207,7 +222,12 @@ func build(h *sgetty.RpcPackageHandler, c Case) (stream []byte, ends []int, err 
 
 func runCase(c Case) *pt.Failure {
 	return pt.Guard("C13/"+c.Kind, func() *pt.Failure {
-		h := &sgetty.RpcPackageHandler{}
+		h := sharedHandler
+		if c.Kind == "valid" && c.AbandonAt > 0 {
+			if f := abandonedFrame(h); c.AbandonAt < len(f) {
+				feed(h, [][]byte{f[:c.AbandonAt]}) // the connection dies here; what was read is dropped with it
+			}
+		}
 		switch c.Kind {
 		case "garbage":
 			out := feed(h, split(c.Raw, c.Cuts))
@@ -474,6 +494,9 @@ func TestPropRandomPartitions(t *testing.T) {
 		c := Case{Kind: "valid", Msgs: drawMsgs(rt, 6)}
 		stream, ends := frameLens(c)
 		c.Cuts = drawCuts(rt, len(stream), ends)
+		if rapid.IntRange(0, 3).Draw(rt, "abandon") == 0 {
+			c.AbandonAt = rapid.SampledFrom([]int{1, 2, 15, 16, 17, 40, 200}).Draw(rt, "abandonAt")
+		}
 		record("random-partitions", c, ends)
 		ctx.Judge(rt, "random-partitions", runCase(c), c)
 	})
